@@ -64,6 +64,9 @@ class Recorder:
 
     # --- recording
     def ob(self, rule, key, ok, where='', detail='', path=None, state=None):
+        # verdicts are exactly True / False / None (undecided): a falsy non-boolean such as () must not slip through as "nothing"
+        if ok is not None:
+            ok = bool(ok)
         self.obls.append(Obligation(rule, key, ok, where, detail, path, state))
         return ok
 
